@@ -18,7 +18,8 @@ logger = logging.getLogger('IsoQuant')
 
 
 def validate_exons(novel_exons):
-    return novel_exons == sorted(novel_exons) and all(0 < x[0] <= x[1] for x in novel_exons)
+    return novel_exons == sorted(novel_exons) and all(0 < x[0] <= x[1] for x in novel_exons) and \
+        all(novel_exons[i][1] < novel_exons[i + 1][0] for i in range(len(novel_exons) - 1))
 
 
 class VoidTranscriptPrinter:
